@@ -113,15 +113,14 @@ Theorem C04_gen_is_transcription : forall f x y s i,
   GominiGen.gm_unify f x y s = GominiGenSpec.of_gres (GCore.gunify f x y s) /\
   GominiGen.gm_walk f x s = GominiGenSpec.of_optg (GCore.gwalk f x s) /\
   GominiGen.gm_hasCycle f i y s = GominiGenSpec.of_optg (GCore.ghascycle f i y s) /\
-  GominiGen.gm_isLeaf x = GoLite.Ret (GCore.is_leaf x) /\
-  GominiGen.gm_rewrite f x s = GominiGenSpec.of_optg (GCore.grewrite f x s).
+  GominiGen.gm_isLeaf x = GoLite.Ret (GCore.is_leaf x).
 Proof. exact (fun f x y s i => conj (GominiGenSpec.gm_unify_spec f x y s) (conj (GominiGenSpec.gm_walk_spec f x s)
-               (conj (GominiGenSpec.gm_hasCycle_spec f i y s) (conj (GominiGenSpec.gm_isLeaf_spec x) (GominiGenSpec.gm_rewrite_spec f x s))))). Qed.
+               (conj (GominiGenSpec.gm_hasCycle_spec f i y s) (GominiGenSpec.gm_isLeaf_spec x)))). Qed.
 Print Assumptions C04_gen_is_transcription.
 
 Theorem C04_gen_never_panics : forall f x y s i,
   GominiGen.gm_unify f x y s <> GoLite.Panic /\ GominiGen.gm_walk f x s <> GoLite.Panic /\
-  GominiGen.gm_hasCycle f i y s <> GoLite.Panic /\ GominiGen.gm_rewrite f x s <> GoLite.Panic /\ GominiGen.gm_isLeaf x <> GoLite.Panic.
+  GominiGen.gm_hasCycle f i y s <> GoLite.Panic /\ GominiGen.gm_isLeaf x <> GoLite.Panic.
 Proof. exact GominiGenSpec.gomini_code_never_panics. Qed.
 Print Assumptions C04_gen_never_panics.
 
